@@ -491,6 +491,40 @@ def r12_argument_count_is_compared_for_equality(ctx, rule="C12.R12"):
     ctx.require(rule, 1)
 
 
+def r13_select_case_compares_built_in_values(ctx, T, rule="C12.R13"):
+    """`executing it can never raise Type mismatch`: every CASE of a SELECT CASE is lowered to a
+    comparison of the selector with the CASE expression, and comparisons exist for numbers and strings
+    only (the checker refuses `a = b` on records).  The check of a CASE expression against its
+    selector - evaluated for each form (value, range, IS) with a selector of a record type - must
+    refuse; two records of the same type are `castable` into each other, which is not enough."""
+    prog = ctx.prog
+    fs = [f for f in prog.fns.values() if f.name == "visit_case_expression" and f.impl and f.kind != "closure"
+          and f.impl.get("trait") == labels.PCL and f.crate == "rusty_linter"
+          and any((t.get("cpath") or "").split("::")[-1] == "can_cast_to" for g in [f] + prog.closures_of(f)
+                  for _b, t in g.body.calls())]
+    if len(fs) != 1:
+        raise CheckError("%s: the pass that types CASE expressions against the selector not found (%d)" % (rule, len(fs)))
+    fn = fs[0]
+    ce = [a["id"] for a in prog.adts.values() if a["path"].endswith("::CaseExpression")]
+    if len(ce) != 1:
+        raise CheckError("anchor CaseExpression")
+    CE = ce[0]
+
+    def expr(et):
+        return T.eng.make(ot.POS, "Positioned", {0: T.eng.make(ot.EXPR, "Variable", {1: et})})
+    rec = T.eng.make(ET, "UserDefined", {})
+    forms = {"Simple": {0: expr(rec)}, "Range": {0: expr(rec), 1: expr(rec)}, "Is": {1: expr(rec)}}
+    if set(forms) != set(prog.variants(CE)):
+        raise CheckError("%s: CaseExpression has variants %s" % (rule, prog.variants(CE)))
+    for form, fields in sorted(forms.items()):
+        c = T.eng.make(CE, form, fields)
+        rs = sorted({tf.shape(x).split("(")[0] for x in T.eng.summary(fn, (tf.TOP, tf.Ref(c), tf.Ref(expr(rec))))})
+        ctx.decide(rs == ["Err"], rule, "%s:%s:record-selector" % (rule, form), fn.loc, "refused",
+                   "SELECT CASE on a value of a record type with a `CASE %s` of the same record type can be accepted "
+                   "(verdicts %s): the comparison the CASE is lowered to raises Type mismatch at run time" % (form, rs))
+    ctx.require(rule, 3)
+
+
 def run(ctx):
     common.install(ctx)
     T = ot.OpTables(ctx.prog)
@@ -507,3 +541,4 @@ def run(ctx):
     r10_array_element_type_field(ctx)
     r11_no_conversion_between_arrays(ctx, T)
     r12_argument_count_is_compared_for_equality(ctx)
+    r13_select_case_compares_built_in_values(ctx, T)
